@@ -321,7 +321,10 @@ func matchProtocolIDWithSemver(
 	supportedVersion string) (bool, error) {
 	// Extract the version part from the protocol ID.
 	parts := strings.Split(incomingProto, "/")
-	if len(parts) != 3 {
+	// identifiers have the form /name/version: anything in front of the first
+	// slash would be accepted unchecked (and, if it is not valid UTF-8, crashes
+	// the metrics of the resource manager once the stream is accepted)
+	if len(parts) != 3 || parts[0] != "" {
 		return false, fmt.Errorf("invalid protocol ID: %s", protoID)
 	}
 	protocolName := parts[1]
